@@ -566,16 +566,18 @@ Definition sign_other (sn : station) (psid gen payload : Z) : station * res :=
 (* nh: BasicNH (0 ANY, 1 COMMON_HEADER, 2 SECURED_PACKET); body: id of the bytes
    after the basic header (used when they are handed on unsecured). *)
 Definition rx (sn : station) (sec_enabled has_vs version_ok : bool) (nh body : Z) (m : msg) : station * res :=
-  if negb version_ok then (sn, RCrash)
+  (* Router.gn_data_indicate discards a frame whose processing raises (repository fix dce9f7f): an unknown protocol
+     version, a next-header value other than common / secured, or an exception inside the verification service all end
+     in a drop - nothing is delivered and no exception leaves the receive path *)
+  if negb version_ok then (sn, RDrop)
   else if nh =? 1 then (if sec_enabled then (sn, RDrop) else (sn, RDeliver body))
   else if nh =? 2 then
     (if negb has_vs then (sn, RDrop)
      else match verify_msg sn m with
           | (sn', RVerify code _ p) => if code =? R_SUCCESS then (sn', RDeliver p) else (sn', RDrop)
-          | (sn', RCrash) => (sn', RCrash)
           | (sn', _) => (sn', RDrop)
           end)
-  else (sn, RCrash).
+  else (sn, RDrop).
 
 (* ---------- one API call ---------------------------------------------------- *)
 Definition lift (sn : station) (r : store * bool) : station * res :=
